@@ -1,3 +1,5 @@
 ---- MODULE MC_Handover ----
 EXTENDS Handover
+\* the cached-log defects need no concurrency at all: search them among behaviours with one request in flight at a time
+Sequential == \A a, b \in Brokers : (pc[a] # "idle" /\ pc[b] # "idle") => a = b
 ====
